@@ -134,7 +134,6 @@ Definition line_links (l : list inline) : list string := flat_map inline_links l
 Record lblock := LB {
   lb_note : string;
   lb_lr : lrange;
-  lb_quote : bool;              (* inside a block quote *)
   lb_keys : list string;        (* what its note links resolve to, per the property text:
                                    relative to the note's directory, `.md` ignored, no external urls *)
   lb_raw : list string          (* the same links read without the directory (what class 1 is about) *)
@@ -146,30 +145,30 @@ Definition resolved_keys (dir : string) (urls : list string) : list string :=
 Section Scan.
   Variable note dir : string.
 
-  Definition entry (inq : bool) (lr : lrange) (l : list inline) (blockref : bool) : list lblock :=
+  Definition entry (lr : lrange) (l : list inline) (blockref : bool) : list lblock :=
     match line_links l with
     | [] => []
-    | urls => [LB note lr inq (resolved_keys dir urls)
+    | urls => [LB note lr (resolved_keys dir urls)
                  (if blockref then resolved_keys dir urls else map key_from_file_name (filter is_ref_url urls))]
     end.
 
   (* [secpos]: the block is the first one of a list item (a paragraph there is the item's
      text even when it is a lone link) *)
-  Fixpoint scan_block (inq secpos : bool) (b : dblock) {struct b} : list lblock :=
+  Fixpoint scan_block (secpos : bool) (b : dblock) {struct b} : list lblock :=
     let fix scan_item (it : list dblock) : list lblock :=
       match it with
       | [] => []
-      | b :: r => scan_block inq true b ++ (fix rest (l : list dblock) : list lblock :=
-                                               match l with [] => [] | x :: l' => scan_block inq false x ++ rest l' end) r
+      | b :: r => scan_block true b ++ (fix rest (l : list dblock) : list lblock :=
+                                           match l with [] => [] | x :: l' => scan_block false x ++ rest l' end) r
       end in
     let fix scan_items (items : list (list dblock)) : list lblock :=
       match items with [] => [] | it :: r => scan_item it ++ scan_items r end in
     match b with
-    | DPara lr l => entry inq lr l (negb secpos && para_is_ref l)
-    | DHeader lr _ l => entry inq lr l false
-    | DQuote _ bs =>
+    | DPara lr l => entry lr l (negb secpos && para_is_ref l)
+    | DHeader lr _ l => entry lr l false
+    | DQuote _ bs =>     (* a block inside a quote is a linking block like any other, at its own lines *)
         (fix go (l : list dblock) : list lblock :=
-           match l with [] => [] | x :: l' => scan_block true false x ++ go l' end) bs
+           match l with [] => [] | x :: l' => scan_block false x ++ go l' end) bs
     | DBList items | DOList items => scan_items items
     | _ => []    (* code, rule; table cells are not listed by the property *)
     end.
@@ -177,7 +176,7 @@ End Scan.
 
 Definition scan_note (n : note_in) : list lblock :=
   match ni_blocks n with
-  | Ok bs => let k := key_from_file_name (ni_name n) in flat_map (scan_block k (key_parent k) false false) bs
+  | Ok bs => let k := key_from_file_name (ni_name n) in flat_map (scan_block k (key_parent k) false) bs
   | Panic _ => []
   end.
 
@@ -207,18 +206,19 @@ Definition exact_for (sc : list lblock) (io : iobs) (k : string) : bool :=
   end.
 
 (* the same demand restricted to what no known class touches: every linking block whose
-   links read the same with and without the directory, outside quotes [and not in
-   `shadow`], is reported; and whatever is reported is a linking block under one of the two
-   readings (a block inside a quote may come with the range 0..0) *)
+   links read the same with and without the directory [and not in `shadow`] is reported -
+   inside block quotes too, at the block's own lines (the former class 3, F-C05-quote-line, was
+   repaired in SectionsBuilder: the nested builder's line map is kept) -; and whatever is
+   reported is a linking block under one of the two readings *)
 Definition residual_for (sc : list lblock) (shadow : list (string * lrange)) (io : iobs) (k : string) : bool :=
   match obs_places io k with
   | None => false
   | Some o =>
-      forallb (fun b => implb (inb k (lb_keys b) && inb k (lb_raw b) && negb (lb_quote b) &&
+      forallb (fun b => implb (inb k (lb_keys b) && inb k (lb_raw b) &&
                                negb (existsb (loc_eqb (lb_note b, lb_lr b)) shadow))
                               (existsb (loc_eqb (lb_note b, lb_lr b)) o)) sc &&
       forallb (fun p => existsb (fun b => String.eqb (lb_note b) (fst p) &&
-                                          (lrange_eqb (lb_lr b) (snd p) || (lb_quote b && lrange_eqb (snd p) (0, 0))) &&
+                                          lrange_eqb (lb_lr b) (snd p) &&
                                           (inb k (lb_keys b) || inb k (lb_raw b))) sc) o
   end.
 
@@ -231,9 +231,8 @@ Definition note_keys (c : libcase) : list string := map (fun n => key_from_file_
 Definition cls_inline_raw (sc : list lblock) : bool :=
   existsb (fun b => negb (list_eqb String.eqb (lb_keys b) (lb_raw b))) sc.
 
-(* class 3: a note link inside a block quote (its node has no line range) *)
-Definition cls_quote_link (sc : list lblock) : bool :=
-  existsb (fun b => lb_quote b && negb (match lb_keys b with [] => true | _ => false end)) sc.
+(* (formerly class 3, F-C05-quote-line: a note link inside a block quote, whose node had no line
+   range.  Repaired in the builder; the class no longer exists, a failure there is a VIOLATION.) *)
 
 (* class 2 (R1): in a note's tree, a block that follows a table in the same sibling chain
    (or hangs below such a block) — after an update the walk from the root does not reach it.
@@ -303,8 +302,7 @@ Definition c05_props (tbl : bool) (c : c05case) : list N * list N :=
       let shadow_links := existsb (fun us => existsb (has_link_at sc) (snd us)) ups in
       let classes :=
         (if cls_inline_raw sc then [1%N] else []) ++
-        (if negb tbl && shadow_links then [2%N] else []) ++
-        (if cls_quote_link sc then [3%N] else []) in
+        (if negb tbl && shadow_links then [2%N] else []) in
       (flag 1 p1 ++ flag 2 p2 ++ flag 3 (r1 && r2),
        (* a failure of the restricted demand is explained by no class *)
        if r1 && r2 then classes else [])
